@@ -130,7 +130,7 @@ func checkDefs() map[string]CheckDef {
 		"message parser without Content-Length and without skip-body/clen-required (documented exemption: the body is the rest of the buffer); SIPMsgNoMoreDataF, POptInputEndF")
 
 	add("C04",
-		cat(each("H_C04_parse", l(0, 1, 2, 3, 6, 8, 9, 11, 12, 13, 15, 16, 18, 19, 20, 21, 22, 23, 25, 26, 27, 30, 32, 33, 34, 36), l(6)),
+		cat(each("H_C04_parse", l(0, 1, 2, 3, 4, 6, 8, 9, 11, 12, 13, 15, 16, 18, 19, 20, 21, 22, 23, 25, 26, 27, 30, 32, 33, 34, 36), l(6)),
 			each("H_C04_parse", l(5), l(15)),
 			each("H_C04_parse", l(40, 43, 45), l(8)),
 			each("H_C04_msg", l(1, 3, 4, 9, 11), l(3), l(-1, 0, 1), l(-1, 0, 1)),
@@ -138,6 +138,7 @@ func checkDefs() map[string]CheckDef {
 			each("H_C04_msg", l(0), l(10), l(-1), l(-1)),
 			each("H_C04_lookup", seq(0, 6)), each("H_C04_lookup", l(9, 12, 14, 19, 20)),
 			each("H_C04_enums"),
+			each("H_C04_api", l(0), l(15)), each("H_C04_api", l(1, 2, 3, 4, 5, 7), l(6)), each("H_C04_api", l(6), l(8)), each("H_C04_api", l(8), l(3)),
 			each("H_C04_uri", l(3, 4), l(2)),
 			each("H_C04_ip", l(5, 7), l(-1, 0, 3, 4, 16, 20)),
 			each("H_C04_sig", seq(0, 4))),
@@ -168,7 +169,7 @@ func checkDefs() map[string]CheckDef {
 		"header blocks other than the skeleton; more than two pipelined messages")
 
 	add("C07",
-		cat(each("H_C07", l(0), l(8), l(0, 1, 2)), each("H_C07", l(0), seq(3, 7), l(2)), each("H_C07", l(15, 16, 17), l(4), l(0, 1, 3))),
+		cat(each("H_C07", l(0), l(8), l(0, 1, 2)), each("H_C07", l(0), l(9), l(0)), each("H_C07", l(0), seq(3, 7), l(2)), each("H_C07", l(15, 16, 17), l(4), l(0, 1, 3))),
 		cat(each("H_C07", l(0), l(9, 10), l(0, 2)), each("H_C07", l(15, 16, 17), l(6), l(1, 3))),
 		"ParseHeaders (no header-specific value parsers) vs. a non-incremental reference tokeniser on fully symbolic blocks of 3-8 (10) bytes and on templates with known header names, capacities 0..3: count, name/value spans, type = literal-table classification, type flags, first-of-type",
 		"blocks longer than the bound; more than 6 headers per block; header-specific value rewriting (C05/C09)")
@@ -200,7 +201,8 @@ func checkDefs() map[string]CheckDef {
 	add("C11",
 		cat(each("H_offset", l(0, 1, 2, 3, 6, 8, 11, 12, 13, 16, 19, 22, 23, 25, 30, 34), l(0), l(5), l(1, 3, 255, 256, 65530)),
 			each("H_offset", l(5), l(24, 25), l(4), l(1, 256, 65500)),
-			each("H_offset", l(40, 41), l(1, 3, 5, 9), l(3), l(1, 255, 256, 65480))),
+			each("H_offset", l(40, 41), l(1, 3, 5, 9), l(3), l(1, 255, 256, 65480)),
+			each("H_offset", l(40, 42), l(7, 21, 22), l(2), l(1, 3, 256))),
 		cat(each("H_offset", l(0, 1, 2, 3, 6, 8, 11, 12, 13, 16, 19, 22, 23, 25, 30, 34), l(0), l(7), l(2, 257, 4096, 65528)),
 			each("H_offset", l(40, 41), l(1, 3, 5, 9), l(5), l(7, 257, 65478))),
 		"same text at offset k vs. offset 0 for the message parser and every stand-alone parser: contents fully symbolic (5/7 bytes or template windows), the two bytes before the text symbolic, k in {1,3,255,256,257,4096, 65535-len-..} (8/16-bit boundaries and the addressing limit)",
@@ -237,7 +239,7 @@ func checkDefs() map[string]CheckDef {
 
 	add("C15",
 		cat(each("H_C15_reflexive", seq(1, 6)), each("H_C15_symmetric", l(1, 2, 3), l(2, 3)), each("H_C15_entry", l(1, 2, 3), l(1, 2, 3)),
-			each("H_C15_case", l(1), l(2)), each("H_C15_presence", seq(0, 3))),
+			each("H_C15_case", l(1), l(2)), each("H_C15_presence", seq(0, 3)), each("H_C15_order", l(0, 1, 2))),
 		cat(each("H_C15_reflexive", l(7, 8)), each("H_C15_symmetric", l(4), l(3, 4)), each("H_C15_entry", l(4), l(3, 4)), each("H_C15_case", l(2), l(3))),
 		"URIs = sip: (any case) + up to 6 (8) symbolic bytes each, all 64 skip-flag sets symbolic; precondition (lists parse, no duplicate names) decided with the library's own list parsers; reflexive, symmetric, flag monotonicity, entry-point agreement incl. handed-back URIs, case / order insensitivity on a template, presence rule for user/ttl/method/maddr",
 		"longer URIs; more than 6 parameters")
@@ -261,7 +263,7 @@ func checkDefs() map[string]CheckDef {
 		"longer URIs")
 
 	add("C19",
-		cat(each("H_C19_insert", l(0, 1), seq(0, 6), l(2)), each("H_C19_insert", l(2), l(1), l(1)), each("H_C19_cap", seq(0, 7), l(2)),
+		cat(each("H_C19_insert", l(0, 1), seq(0, 6), l(2)), each("H_C19_insert", l(2), l(1), l(1)), each("H_C19_insert_rot", l(0, 1), l(0, 3, 6), l(2), seq(1, 5)), each("H_C19_cap", seq(0, 7), l(2)),
 			each("H_C19_cap", l(4, 12), l(4)), each("H_C19_chunk", l(2)), each("H_C19_strsig", seq(0, 4)), each("H_C19_string", seq(0, 8))),
 		cat(each("H_C19_insert", l(0, 1), seq(0, 6), l(4)), each("H_C19_strsig", l(5)), each("H_C19_cap", l(2, 5), l(6))),
 		"requests built from a 6-header skeleton: a header with symbolic value inserted at every position + a repeated From appended (signature unchanged); replies; a header with a symbolic 2-4 byte name and capacities 0..7,12 (same signature or ErrHdrTrunc); every single cut; string signatures on 0-4 (5) symbolic bytes; String() for every documented-shape signature",
